@@ -153,6 +153,13 @@ func (l *slexer) run() {
 				l.bad = true
 				return
 			}
+			for _, b := range []byte(l.s[l.pos+1 : end]) {
+				if b < 0x20 && b != '\t' && b != '\n' && b != '\r' || b == 0x7f {
+					// control characters are not XML Chars; whether a literal may hold them is not settled by
+					// the property ("stray characters" are named for expressions, literals are opaque): grey
+					l.grey = true
+				}
+			}
 			l.emit("lit", l.s[l.pos+1:end])
 			l.pos = end + 1
 		case isDigit(c) || (c == '.' && l.pos+1 < len(l.s) && isDigit(l.s[l.pos+1])):
